@@ -268,6 +268,17 @@ theorem scan_assemble_partial (d : Delims) (ps : List Piece) (hwf : srcWf d ps =
     scan d (assemble d ps) = matchesOf d 0 ps :=
   scan_assemble d ps 0 hwf hm
 
+/-- **String level, text and output statements — full strength.** For every template made of text and output
+statements (any markers, padding, expressions; default `{%` / `{{` openers, any output closer that does not start
+with whitespace, `-` or a word character, shorthand comments off or `{#`), well-formedness alone implies that scanning the assembled
+*string* yields exactly the matches `matchesOf` states: the residual hypothesis of `scan_assemble_partial` is
+discharged for this sub-language. -/
+theorem scan_assemble_text_output (d : Delims) (hT : d.tagS = ['{', '%']) (hS : d.stmtS = ['{', '{'])
+    (hE : plainDelim d.stmtE = true) (hC : d.cmtS = [] ∨ d.cmtS = ['{', '#']) (ps : List Piece)
+    (hk : ps.all (fun p => p.isText || p.isOutput) = true) (hwf : srcWf d ps = true) :
+    scan d (assemble d ps) = matchesOf d 0 ps :=
+  scan_assemble_partial d ps hwf (allMarkupFound_text_output d hT hS hE hC ps hk hwf)
+
 /-- **End to end from the string** (same residual hypothesis): scanning, tokenizing and parsing the source string
 of any well-formed item list gives the specified nodes. -/
 theorem string_level_refines_spec_partial (d : Delims) (items : List Item) (hok : allOk items = true)
